@@ -55,6 +55,12 @@ func NewDiskWriter(ctx context.Context, dest string, opt DiskWriterOpt) (*DiskWr
 		return nil, errors.New("can't specify both sync and async data callbacks")
 	}
 
+	// dest may be named through a symbolic link (NewFS resolves its root the
+	// same way): the final walk over dest in Wait does not follow one.
+	if resolved, err := filepath.EvalSymlinks(dest); err == nil {
+		dest = resolved
+	}
+
 	ctx, cancel := context.WithCancel(ctx)
 	eg, egCtx := errgroup.WithContext(ctx)
 
